@@ -193,6 +193,11 @@ structure ValidateOut where
   oob : Bool
 deriving DecidableEq, Repr
 
+/-- does a reply with a server cookie move a *cleared* state (INITIAL / UNSUPPORTED: no client cookie in use) to
+    SUPPORTED?  Observed by the generator: yes on the pinned tree, no after the repair of F30-C17 (support is only
+    recorded while a client cookie is in use, otherwise the all-zero cookie of the cleared state could be sent). -/
+def learnsWhenCleared : Bool := VALIDATE_LEARNS_WHEN_CLEARED == 1
+
 /-- `ares_cookie_validate`, parametric in `timeval_is_set`.  `reqCookie` is the COOKIE option of the request as it
     was last written, `respCookie` that of the response, `rcode` the response's (extended) rcode. -/
 def validateWith (isSet : TimeVal → Bool) (c : CookieSt) (q : QState) (reqCookie respCookie : Option Bytes)
@@ -209,7 +214,7 @@ def validateWith (isSet : TimeVal → Bool) (c : CookieSt) (q : QState) (reqCook
     -- a server cookie came back: the server supports cookies
     let c1 := match respCookie with
       | some r =>
-        if r.length > 8 then
+        if decide (r.length > 8) && (learnsWhenCleared || c.state = .generated || c.state = .supported) then
           let c' := { c with state := .supported, unsupportedTs := .zero }
           if c'.client == rq.take COOKIE_CLIENT_LEN then { c' with server := r.drop 8 } else c'
         else c
